@@ -622,6 +622,16 @@ CmpSortInsert(fn, sorted, x, st, pos) ==
          IN  IF R.x # "ok" THEN R
              ELSE IF Truthy(R.r) THEN CmpSortInsert(fn, sorted, x, R.st, pos - 1)
              ELSE [x |-> "ok", rs |-> SubSeq(sorted, 1, pos) \o <<x>> \o SubSeq(sorted, pos + 1, Len(sorted)), st |-> R.st]
+\* "x goes after y" as the comparator says (an erroring call counts as false here; CmpSort reports the error)
+CmpAfter(fn, x, y, st) == LET R == Call(fn, <<x, y>>, NoSite(st)) IN R.x = "ok" /\ Truthy(R.r)
+CmpIsStrictWeakOrder(fn, items, st) ==
+    LET n == Len(items)
+        A == [i \in 1..n |-> [j \in 1..n |-> CmpAfter(fn, items[i], items[j], st)]]
+        Inc(i, j) == ~A[i][j] /\ ~A[j][i]
+    IN  /\ \A i \in 1..n : ~A[i][i]
+        /\ \A i, j \in 1..n : A[i][j] => ~A[j][i]
+        /\ \A i, j, k \in 1..n : (A[i][j] /\ A[j][k]) => A[i][k]
+        /\ \A i, j, k \in 1..n : (Inc(i, j) /\ Inc(j, k)) => Inc(i, k)
 RECURSIVE CmpSort(_, _, _, _, _)
 CmpSort(fn, items, i, sorted, st) ==
     IF i > Len(items) THEN Ok(Arr(sorted), st)
@@ -809,6 +819,8 @@ CallBuiltin(nm, args0, site, cx) ==
                       ELSE IF n = 2 /\ ~IsUndef(a[2]) THEN
                            (IF ~IsFn(a[2]) THEN BadArgs(st)
                             ELSE IF FnArity(a[2]) # 2 THEN Top("comparator that does not take two arguments", st)
+                            \* the result is determined by the statement only when "goes after" is a strict weak order on these members
+                            ELSE IF ~CmpIsStrictWeakOrder(a[2], arr1, st) THEN Top("comparator that is not a strict weak order on these members", st)
                             ELSE CmpSort(a[2], arr1, 1, <<>>, st))
                       \* fewer than two members need no ordering: whether a lone member of another type is an error is open
                       ELSE IF Len(arr1) <= 1 /\ ~(\A i \in 1..Len(arr1) : IsNum(arr1[i]) \/ IsStr(arr1[i]))
